@@ -85,6 +85,8 @@ pub fn configs(tier: Tier) -> Vec<Box<dyn Config>> {
     let sse2 = super::width() == 16;
     let mut v: Vec<Box<dyn Config>> = Vec::new();
     let quick = tier == Tier::Quick;
+    // element type without drop glue whose Clone is user code (clone / clone_from paths that are gated on drop glue)
+    v.push(mk::<CKey, CVal>(Plan::Zero, if quick { 6 } else { 9 }, vec![vec![]], None, tier, false, ""));
     if sse2 {
         // 32-bucket table, growth_left == 0, tombstones: in-place rehash on the next insert
         let seeds = vec![tombstone_seed(28, 20), tombstone_seed(28, 14)];
